@@ -295,6 +295,10 @@ class Ctx:
         if finding is not None and any(f['id'] == finding for f in self.known):
             self.known_hits[finding] = self.known_hits.get(finding, 0) + 1
             return
+        import re as _re
+        key = _re.sub(r"[0-9]+|'[^']*'|\"[^\"]*\"", '#', what)[:90]
+        h = self.extra.setdefault('failure_classes', {})
+        h[key] = h.get(key, 0) + 1
         if len(self.failing) < 5:
             path = self.write_replay({'property': self.prop, 'kind': 'failing-input',
                                       'what': what, 'case': case, 'seed': self.seed,
